@@ -69,7 +69,7 @@ def make_hist(shape: str, member_opts: Sequence[Any], inv_opts: Sequence[Sequenc
         invs = [{"c": b.new("inv", on)} for on in inv_opts[k - 1]]
         cls.append({"bases": list(bases), "mro": mros[k - 1], "dbc": dbc, "members": members, "invs": invs,
                     "mod": "app.models"})
-    return {"hid": 0, "tag": tag or shape, "names": ["f", "g"], "con": b.con, "cls": cls}
+    return {"hid": 0, "tag": tag or shape, "names": ["f", "g"], "con": b.con, "cls": cls, "posthoc": []}
 
 
 def fam_hier(tier: str, rng: random.Random) -> Iterator[dict]:
@@ -122,7 +122,7 @@ def fam_stacks(tier: str, rng: random.Random) -> Iterator[dict]:
                 b.new("pre")
             cls = [{"bases": [], "mro": [1], "dbc": True, "members": [{"name": "f", "kind": "fn", "decos": decos}],
                     "invs": [], "mod": "app.models"}]
-            yield {"hid": 0, "tag": "stack", "names": ["f", "g"], "con": b.con, "cls": cls}
+            yield {"hid": 0, "tag": "stack", "names": ["f", "g"], "con": b.con, "cls": cls, "posthoc": []}
 
 
 def number(hists: Any) -> List[dict]:
@@ -197,3 +197,25 @@ def fam_kinds(tier: str, rng: random.Random) -> Iterator[dict]:
                     if tier == "quick" and n == 3 and rng.random() < 0.6:
                         continue
                     yield make_hist(shape, [(1, 1, 0)] + list(mopts), list(iopts), kind=kind, tag="kinds-" + shape)
+
+
+def fam_posthoc(tier: str, rng: random.Random) -> Iterator[dict]:
+    """C17: a member of an already created class is decorated after the fact (K.f = require(...)(K.f)); every other
+    class - in particular the bases the member's contracts were inherited from - must stay as it was."""
+    for shape in ("chain2", "chain3", "siblings", "twobases"):
+        n = len(SHAPES[shape])
+        for mopts in itertools.product([None, (0, 0, 0), (1, 0, 0), (0, 1, 0), (1, 1, 0)], repeat=n):
+            if mopts[0] is None:
+                continue
+            mros = mro_of(SHAPES[shape])
+            for target in range(1, n + 1):
+                if mopts[target - 1] is None:
+                    continue   # an inherited function object is the base's own function: decorating it IS decorating the base
+                for what in ("require", "ensure"):
+                    h = make_hist(shape, mopts, [[]] * n, kind="fn", tag="posthoc-" + shape)
+                    role = "pre" if what == "require" else "post"
+                    h["con"].append({"role": role, "on": "CALL", "name": 0})
+                    h["posthoc"] = [{"k": target, "name": "f", "d": {"d": what, "c": len(h["con"])}}]
+                    if tier == "quick" and n == 3 and rng.random() < 0.5:
+                        continue
+                    yield h
